@@ -229,6 +229,9 @@ pub struct TGen {
     in_switch: bool,
     /// callback context (effects allowed in statements)
     callback: bool,
+    /// which operand position the planned edit broke (left / right operand, condition, consequence / alternative), if the
+    /// edit is one of the operand swaps
+    pub pos: Option<&'static str>,
 }
 
 impl TGen {
@@ -244,7 +247,17 @@ impl TGen {
             next_local: 0,
             in_switch: false,
             callback: false,
+            pos: None,
         }
+    }
+
+    /// an operand swap breaks exactly ONE operand of a two-operand construct; which one is decided on the side stream
+    /// (the main stream is not advanced), so every operator class is exercised with the left operand alone and with the
+    /// right operand alone of the wrong type (and a ternary with each branch alone)
+    fn break_left(&mut self) -> bool {
+        let left = self.side(|g| g.rng.chance(1, 2));
+        self.pos = Some(if left { "left" } else { "right" });
+        left
     }
 
     /// is this the place where the planned edit happens?
@@ -508,13 +521,19 @@ impl TGen {
         match self.rng.below(16) {
             0..=4 => {
                 let op = *self.rng.pick(&["add", "sub", "mul", "div", "rem"]);
-                let l = self.expr(t, d, strict);
+                let mut l = self.expr(t, d, strict);
                 let mut r = self.expr(t, d, false);
                 if matches!(op, "div" | "rem") {
                     r = self.safe_divisor(r);
                 }
                 if self.hit(Mk::ArithOperand) {
-                    r = self.side(|g| g.wrong(t, d));
+                    // the edit breaks exactly ONE operand: the left one or the right one
+                    let w = self.side(|g| g.wrong(t, d));
+                    if self.break_left() {
+                        l = w;
+                    } else {
+                        r = w;
+                    }
                 }
                 if self.hit(Mk::UnsupportedBinary) {
                     let bad = *self.side(|g| *g.rng.pick(&[&"exp", &"ushr", &"nullish", &"in", &"instanceof"]));
@@ -524,26 +543,37 @@ impl TGen {
             }
             5 | 6 => {
                 let op = *self.rng.pick(&["band", "bxor", "bor"]);
-                let l = self.expr(t, d, strict);
+                let mut l = self.expr(t, d, strict);
                 let mut r = self.expr(t, d, false);
                 if self.hit(Mk::BitwiseOperand) {
-                    r = self.side(|g| g.wrong(t, d));
+                    // the edit breaks exactly ONE operand: the left one or the right one
+                    let w = self.side(|g| g.wrong(t, d));
+                    if self.break_left() {
+                        l = w;
+                    } else {
+                        r = w;
+                    }
                 }
                 bin(op, l, r)
             }
             7 => {
                 let op = *self.rng.pick(&["shl", "shr"]);
                 // `<literal> << <dynamic>` is an int (literal default)
-                let l = self.expr(t, d, t == T::Uint);
+                let mut l = self.expr(t, d, t == T::Uint);
                 // the shift count may be of either integer type
                 let rt = *self.rng.pick(&[T::Int, T::Int, T::Uint]);
                 let r = self.expr(rt, d, false);
                 let mut r = self.safe_shift_count(r);
                 if self.hit(Mk::ShiftOperand) {
-                    r = self.side(|g| {
+                    let w = self.side(|g| {
                         let ot = *g.rng.pick(&[T::Double, T::Bool, T::Str, T::Mode]);
                         g.expr(ot, d.min(1), true)
                     });
+                    if self.break_left() {
+                        l = w;
+                    } else {
+                        r = w;
+                    }
                 }
                 bin(op, l, r)
             }
@@ -565,10 +595,16 @@ impl TGen {
             9 => {
                 let f = *self.rng.pick(&["max", "min"]);
                 // Math.max of two integer literals is an int (literal default), never a uint
-                let l = self.expr(t, d, t == T::Uint);
+                let mut l = self.expr(t, d, t == T::Uint);
                 let mut r = self.expr(t, d, false);
                 if self.hit(Mk::MathMixed) {
-                    r = self.side(|g| g.wrong(t, d));
+                    // the edit breaks exactly ONE operand: the left one or the right one
+                    let w = self.side(|g| g.wrong(t, d));
+                    if self.break_left() {
+                        l = w;
+                    } else {
+                        r = w;
+                    }
                 }
                 let mut args = vec![l, r];
                 if self.hit(Mk::ArgCount) {
@@ -636,16 +672,28 @@ impl TGen {
         let mut c = self.expr(T::Bool, d, false);
         // both branches must have ONE common concrete type: no upcast, integer literals default to int
         let strict_b = strict || t == T::Uint;
-        let a = self.expr(t, d, strict_b);
+        let mut a = self.expr(t, d, strict_b);
         let mut b = self.expr(t, d, strict_b);
         if self.hit(Mk::CondTernary) {
             c = self.side(|g| g.wrong(T::Bool, d));
+            self.pos = Some("condition");
         }
         if self.hit(Mk::TernaryBranches) {
-            b = self.side(|g| g.wrong(t, d));
+            // exactly ONE branch has the wrong type: the consequence or the alternative
+            let w = self.side(|g| g.wrong(t, d));
+            if self.break_left() {
+                a = w;
+            } else {
+                b = w;
+            }
         }
         if matches!(t, T::PBase) && self.hit(Mk::PointerMixTernary) {
-            b = self.side(|g| if g.rng.chance(1, 2) { g.object_of("VOther") } else { g.object_of("VDerived") });
+            let w = self.side(|g| if g.rng.chance(1, 2) { g.object_of("VOther") } else { g.object_of("VDerived") });
+            if self.break_left() {
+                a = w;
+            } else {
+                b = w;
+            }
         }
         if t == T::Uint && self.hit(Mk::LiteralDefault) {
             // `c ? 1 : 2` is an int, not a uint
@@ -673,10 +721,16 @@ impl TGen {
             T::Double => match self.rng.below(9) {
                 0..=2 => {
                     let op = *self.rng.pick(&["add", "sub", "mul", "div", "rem"]);
-                    let l = self.expr(t, d, false);
+                    let mut l = self.expr(t, d, false);
                     let mut r = self.expr(t, d, false);
                     if self.hit(Mk::ArithOperand) {
-                        r = self.side(|g| g.wrong(t, d));
+                        // the edit breaks exactly ONE operand: the left one or the right one
+                        let w = self.side(|g| g.wrong(t, d));
+                        if self.break_left() {
+                            l = w;
+                        } else {
+                            r = w;
+                        }
                     }
                     bin(op, l, r)
                 }
@@ -698,10 +752,16 @@ impl TGen {
                 5 => self.ternary(t, d, false),
                 6 => {
                     let f = *self.rng.pick(&["max", "min"]);
-                    let l = self.expr(t, d, false);
+                    let mut l = self.expr(t, d, false);
                     let mut r = self.expr(t, d, false);
                     if self.hit(Mk::MathMixed) {
-                        r = self.side(|g| g.wrong(t, d));
+                        // the edit breaks exactly ONE operand: the left one or the right one
+                        let w = self.side(|g| g.wrong(t, d));
+                        if self.break_left() {
+                            l = w;
+                        } else {
+                            r = w;
+                        }
                     }
                     call(mem(id("Math"), f), vec![l, r])
                 }
@@ -717,10 +777,16 @@ impl TGen {
             T::Bool => self.bool_expr(d),
             T::Str => match self.rng.below(9) {
                 0..=2 => {
-                    let l = self.expr(t, d, false);
+                    let mut l = self.expr(t, d, false);
                     let mut r = self.expr(t, d, false);
                     if self.hit(Mk::ArithOperand) {
-                        r = self.side(|g| g.wrong(t, d));
+                        // the edit breaks exactly ONE operand: the left one or the right one
+                        let w = self.side(|g| g.wrong(t, d));
+                        if self.break_left() {
+                            l = w;
+                        } else {
+                            r = w;
+                        }
                     }
                     if self.hit(Mk::UnsupportedBinary) {
                         return bin("sub", l, r); // `-` is not defined on strings
@@ -777,10 +843,16 @@ impl TGen {
             T::Flags => match self.rng.below(6) {
                 0 | 1 => {
                     let op = *self.rng.pick(&["band", "bxor", "bor"]);
-                    let l = self.expr(t, d, false);
+                    let mut l = self.expr(t, d, false);
                     let mut r = self.expr(t, d, false);
                     if self.hit(Mk::BitwiseOperand) {
-                        r = self.side(|g| g.wrong(t, d));
+                        // the edit breaks exactly ONE operand: the left one or the right one
+                        let w = self.side(|g| g.wrong(t, d));
+                        if self.break_left() {
+                            l = w;
+                        } else {
+                            r = w;
+                        }
                     }
                     bin(op, l, r)
                 }
@@ -855,29 +927,51 @@ impl TGen {
                 } else {
                     *self.rng.pick(&["eq", "ne", "lt", "le", "gt", "ge", "seq", "sne"])
                 };
-                let l = self.expr(ot, d, false);
+                let mut l = self.expr(ot, d, false);
                 let mut r = self.expr(ot, d, false);
                 if self.hit(Mk::CmpOperand) {
-                    r = self.side(|g| g.wrong(ot, d));
+                    // the edit breaks exactly ONE operand: the left one or the right one
+                    let w = self.side(|g| g.wrong(ot, d));
+                    if self.break_left() {
+                        l = w;
+                    } else {
+                        r = w;
+                    }
                 }
                 if ot == T::PBase && self.hit(Mk::PointerMixEq) {
-                    r = self.side(|g| if g.rng.chance(1, 2) { g.object_of("VOther") } else { g.object_of("VDerived") });
+                    let w = self.side(|g| if g.rng.chance(1, 2) { g.object_of("VOther") } else { g.object_of("VDerived") });
+                    if self.break_left() {
+                        l = w;
+                    } else {
+                        r = w;
+                    }
                 }
                 if ptr && self.hit(Mk::PointerOrder) {
                     let bad = *self.side(|g| *g.rng.pick(&[&"lt", &"le", &"gt", &"ge"]));
                     return bin(bad, l, r);
                 }
                 if ot == T::Mode && self.hit(Mk::EnumMix) {
-                    r = self.side(|g| if g.rng.chance(1, 2) { g.expr(T::Other, 0, true) } else { g.expr(T::Int, 0, true) });
+                    let w = self.side(|g| if g.rng.chance(1, 2) { g.expr(T::Other, 0, true) } else { g.expr(T::Int, 0, true) });
+                    if self.break_left() {
+                        l = w;
+                    } else {
+                        r = w;
+                    }
                 }
                 bin(op, l, r)
             }
             4 | 5 => {
                 let op = *self.rng.pick(&["land", "lor"]);
-                let l = self.expr(t, d, false);
+                let mut l = self.expr(t, d, false);
                 let mut r = self.expr(t, d, false);
                 if self.hit(Mk::LogicalOperand) {
-                    r = self.side(|g| g.wrong(T::Bool, d));
+                    // the edit breaks exactly ONE operand: the left one or the right one
+                    let w = self.side(|g| g.wrong(T::Bool, d));
+                    if self.break_left() {
+                        l = w;
+                    } else {
+                        r = w;
+                    }
                 }
                 bin(op, l, r)
             }
@@ -916,10 +1010,16 @@ impl TGen {
             }
             10 => {
                 let op = *self.rng.pick(&["band", "bxor", "bor"]);
-                let l = self.expr(t, d, false);
+                let mut l = self.expr(t, d, false);
                 let mut r = self.expr(t, d, false);
                 if self.hit(Mk::BitwiseOperand) {
-                    r = self.side(|g| g.wrong(T::Bool, d));
+                    // the edit breaks exactly ONE operand: the left one or the right one
+                    let w = self.side(|g| g.wrong(T::Bool, d));
+                    if self.break_left() {
+                        l = w;
+                    } else {
+                        r = w;
+                    }
                 }
                 bin(op, l, r)
             }
